@@ -794,7 +794,7 @@ func (s *solo) stepAppCall() bool {
 func (s *solo) stepAppPipeline() bool {
 	var cands []*appCall
 	for _, ac := range s.calls {
-		if ac.ans != nil && !ac.released && ac.embargoRound == nil && !ac.canceled {
+		if ac.answer() != nil && !ac.released && ac.embargoRound == nil && !ac.canceled {
 			cands = append(cands, ac)
 		}
 	}
@@ -864,7 +864,7 @@ func (s *solo) issuePumped(ac *appCall, f func(ctx context.Context) (*capnp.Answ
 func (s *solo) stepAppResolve() bool {
 	var cands []*appCall
 	for _, ac := range s.calls {
-		if ac.ans != nil && !ac.resolved {
+		if ac.answer() != nil && !ac.resolved {
 			cands = append(cands, ac)
 		}
 	}
@@ -878,7 +878,7 @@ func (s *solo) stepAppResolve() bool {
 }
 
 func (s *solo) resolveWithHelp(ac *appCall) bool {
-	if ac.resolved || ac.ans == nil {
+	if ac.resolved || ac.answer() == nil {
 		return ac.resolved
 	}
 	ok := s.await(fmt.Sprintf("answer of call uid=%x (%s)", ac.uid, ac.via), func() bool {
@@ -993,7 +993,7 @@ func (s *solo) stepAppReleaseHandle() bool {
 func (s *solo) stepAppCancel() bool {
 	var cands []*appCall
 	for _, ac := range s.calls {
-		if ac.ans != nil && !ac.resolved && !ac.canceled && ac.embargoRound == nil && ac.cancel != nil {
+		if ac.answer() != nil && !ac.resolved && !ac.canceled && ac.embargoRound == nil && ac.cancel != nil {
 			cands = append(cands, ac)
 		}
 	}
